@@ -485,6 +485,44 @@ def rule_forall_total_rows(db: ProgramDB) -> List[Instance]:
                     "nothing (for_all(u, or_(u.m > 1, x.m == 2)) returns [] as soon as some u has m > 1)"))
     if completing is not None:
         out.extend(_completion_keeps_earlier(db, completing))
+        # what is accumulated is the COMPLETED row (the target of the completing loop), not the row the condition yielded
+        defs = local_defs(m)
+        for loop in [n for n in ast.walk(inner.ast) if isinstance(n, ast.For) and isinstance(n.iter, ast.Call) and call_attr(n.iter) == completing.name]:
+            tnames = {x.id for x in ast.walk(loop.target) if isinstance(x, ast.Name)}
+
+            def derives(e, depth=0, seen=frozenset()) -> bool:
+                for x in ast.walk(e):
+                    if isinstance(x, ast.Name) and isinstance(x.ctx, ast.Load):
+                        if x.id in tnames:
+                            return True
+                        if x.id not in seen and depth < 4:
+                            for d in defs.get(x.id, []):
+                                dd = d[1] if isinstance(d, tuple) else d
+                                if isinstance(dd, ast.AST) and derives(dd, depth + 1, seen | {x.id}):
+                                    return True
+                return False
+            for a in apps:
+                if not any(x is a for x in ast.walk(loop)):
+                    continue
+                ok2 = any(derives(arg) for arg in a.args)
+                out.append(inst("FORALL-TOTAL-ROWS", HOLDS if ok2 else VIOLATION, m, "ForAll._evaluate__[the completed row is what is accumulated]",
+                                f"`{unparse(a)[:50]}` accumulates a row built from `{', '.join(sorted(tnames))}`, the completed row" if ok2 else
+                                f"`{unparse(a)[:50]}` sits in the loop over `{completing.name}(…)` but accumulates a row that is not built from its target "
+                                f"`{', '.join(sorted(tnames))}`: the row as the condition yielded it is kept, once per completion, and the variables it leaves "
+                                f"unbound stay unbound - it falls out of the intersection with the rows of the other universal values", line=a.lineno))
+        # the completion is total: a row leaves the helper only when no variable is left (after the loop over the variables, or through
+        # the recursive call for the extended binding) - never from inside the loop that has just bound ONE of them
+        rec = [c for c in own_calls(completing) if call_attr(c) == completing.name]
+        plain_in_loop = [y for l in own_nodes(completing.node) if isinstance(l, ast.For) for s_ in l.body for y in ast.walk(s_)
+                         if isinstance(y, ast.Yield)]
+        ok3 = bool(rec) and not plain_in_loop
+        out.append(inst("FORALL-TOTAL-ROWS", HOLDS if ok3 else VIOLATION, completing, f"{completing.short}[every unbound variable is completed]",
+                        "a binding is extended by one variable and handed to the helper again; rows are yielded only after the loop over the variables found nothing unbound" if ok3 else
+                        (f"`yield {unparse(plain_in_loop[0].value)[:40]}` (line {plain_in_loop[0].lineno}) hands a row on from inside the loop that has bound ONE "
+                         f"unbound variable: a row of the condition that leaves two variables unbound is completed for the first only, and falls out of the intersection "
+                         f"(or_(A, B) inside for_all differs from or_(B, A))" if plain_in_loop else
+                         f"`{completing.name}` does not call itself for the extended binding: only the first unbound variable is completed"),
+                        line=plain_in_loop[0].lineno if plain_in_loop else completing.lineno))
     return out
 
 
